@@ -5,7 +5,7 @@ from units.simplify_rules import common_prelude, NODES, CTX, TYPES, BUILDERS
 
 NAME = "btor2_lower"
 PROPERTIES = ["C08"]
-SPECS = ["contracts/context.spec", "contracts/nodes.spec", "contracts/btor2.spec"]
+SPECS = ["contracts/context.spec", "contracts/nodes.spec", "contracts/context_l1.spec", "contracts/btor2.spec", "contracts/btor2_state.spec"]
 PARSE = "patronus/src/btor2/parse.rs"
 
 # documented as not yet supported (todo!/panic! arms); must stay exactly this set
@@ -70,4 +70,17 @@ def build(ub, algebra_text):
     line = item.line + item.body[:m.start()].count("\n")
     ub.emit_synth("btor2_negated_ref", "btor2_negated_ref", "fn btor2_negated_ref(ctx: &mut Context, signal: &ExprRef, not: bool) -> ExprRef",
                   "{ " + m.group(1) + " }", PARSE, line, {"receivers": {}, "replace": REPL}, note="negation branch of get_expr_from_line_id, verbatim")
+    # init / next operand of a state line: the two statements that decide what is attached to the state
+    item = src.find_fn("parse_state_init_or_next", "impl<'a> Parser<'a>")
+    m = re.search(r"let bv_assigned_to_array\s*=.*?;\s*let expr = if .*?\n        \};", item.body, re.S)
+    if not m:
+        raise AnchorError("parse_state_init_or_next: `let bv_assigned_to_array = ..; let expr = if .. {..} else {..};` not found")
+    line = item.line + item.body[:m.start()].count("\n")
+    for f in ("is_bit_vector", "is_array", "get_array_index_width"):
+        ub.emit_fn(NODES, f, "stub", impl="impl Type", spec_key="Type::" + f)
+    ub.emit_fn(CTX, "array_const", "stub")
+    ub.emit_synth("btor2_state_operand", "btor2_state_operand",
+                  "fn btor2_state_operand(ctx: &mut Context, maybe_expr: ExprRef, state_tpe: Type, is_init_not_next: bool) -> ExprRef",
+                  "{ " + m.group(0) + " expr }", PARSE, line, {"receivers": {}, "replace": REPL},
+                  note="the operand-conversion statements of parse_state_init_or_next, verbatim")
     ub.out("} // verus!\nfn main() {}\n")
